@@ -1674,9 +1674,11 @@ class Kernel:
                 i0 + 1, i1, len(stmts), texts[i0][:60], texts[i1][:60] if i1 < len(stmts) else "end of function"))
             stmts = stmts[i0:i1]
         # locals declared INSIDE the slice are ordinary locals of the kernel, not inputs
+        self.decl_in_slice = set()
         for st_ in stmts:
             for dcl in all_decls(st_):
                 self.pre_locals.discard(("v", dcl["id"]))
+                self.decl_in_slice.add(("v", dcl["id"]))
         self.slice_text = "\n".join(self.text_of(s) for s in stmts)
         bpats = self.spec.get("blocks", [])
         if bpats:
@@ -1704,7 +1706,21 @@ class Kernel:
                     raise CTransError("%s: void function without declared outputs" % self.cname)
                 return ["None (* control reaches the end of a non-void function *)"]
             names = []
+            missing = [o for o in self.outputs if o not in self.names]
+            subst = {}
+            if missing:
+                # a declared output was renamed in the source: take it by position when that is unambiguous, i.e. when as
+                # many scalar locals declared inside the slice are left over (not named as outputs) as outputs are missing
+                left = [v.name for key, v in self.vars.items()
+                        if v.cat == "local" and key[0] == "v" and key in env2["assigned"] and v.ty.scalar() and
+                        v.name not in self.outputs and key in self.decl_in_slice]
+                if len(left) == len(missing):
+                    subst = dict(zip(missing, left))
+                    self.out_subst = subst
+                    for o_, n_ in subst.items():
+                        self.skipped.append("declared output '%s' is not a variable any more: taken by position, '%s'" % (o_, n_))
             for o in self.outputs:
+                o = subst.get(o, o)
                 if o not in self.names:
                     raise CTransError("%s: declared output '%s' is not a variable of the kernel" % (self.cname, o))
                 key = self.names[o]
@@ -1731,7 +1747,8 @@ class Kernel:
         if self.outputs is None:
             rty = "option Z"
         else:
-            rty = "option (%s)" % " * ".join(("(%s)" % self.vars[self.names[o]].coqty if "->" in self.vars[self.names[o]].coqty else "Z") for o in self.outputs)
+            outs_ = [getattr(self, "out_subst", {}).get(o, o) for o in self.outputs]
+            rty = "option (%s)" % " * ".join(("(%s)" % self.vars[self.names[o]].coqty if "->" in self.vars[self.names[o]].coqty else "Z") for o in outs_)
         text = "\n\n".join(self.loops + ["Definition %s%s : %s :=\n%s." % (self.gname, binders, rty, "\n".join(self.indent(lines)))])
         return text
 
